@@ -25,8 +25,24 @@ CLAIMS = {
     "C04": ("Step contracts for merge, zip, combine_latest (both macro instantiations), with_latest_from, sample, take_until "
             "proved on the real text for arbitrary pre-states (unbounded queues); every interleaving is a sequence of such steps.",
             "§4 C04", "skip_until and buffer(notifier) not yet under contract; aliasing of the two handles is assumed."),
+    "C06": ("Verus, unbounded in the number of subscribers: Subject/SubjectThreads next/error/complete/load/actual_subscribe/"
+            "unsubscribe/is_closed/is_empty/len/retain proved on the real macro text (iterator adapters desugared by rule R9, "
+            "SmallVec assumed to be a Vec) against 'exactly once, in list order, to everybody registered before the emission; "
+            "terminal once to every open unfinished subscriber; nothing after a terminal'.", "§4 C06",
+            "Thread interleavings and re-entrant calls from callbacks (borrow/lock acquisition) are outside the stand-in; "
+            "retain's completeness clause and the MutRef* variants (same macro text) are not separately proved."),
+    "C07": ("Verus with scheduler stand-ins: DelayObserver/ObserveOnObserver (both forms) schedule exactly one one-shot task per "
+            "notification with the configured delay (None for observe_on) carrying (slot handle, payload), deliver nothing "
+            "synchronously, register the handle; delay forwards an error at once.", "§4 C07",
+            "Task run order (the scheduler) is a stated assumption; the _at builders and subscribe_on/delay_subscription are not in this check yet."),
+    "C08": ("Verus: the task bodies interval_task, timer_task, item_task, result_task emit exactly what the source promises "
+            "when the scheduler runs them.", "§4 C08",
+            "RepeatTask::poll / FutureTask::poll / stream driver polls and timer accuracy are not covered by this check yet."),
     "C09": ("Verus: buffer contracts (never empty, flush at count, order kept, concatenation on completion) and sample's "
             "take-once cell.", "§4 C09", "debounce/throttle/timed buffers are not yet under contract."),
+    "C19": ("Verus: TaskHandle::{unsubscribe,is_closed} for plain and subscribing tasks (cancellation clears keep_running and "
+            "drops/unsubscribes the stored result; closed only when the task has produced its value), value_handle.", "§4 C19",
+            "Remote::poll, OnceTask/RepeatTask/FutureTask::poll and the schedule() async block are not covered by this check yet (trusted)."),
     "C11": ("Verus: ConnectableObservable::actual_subscribe only joins the inner subject (no bound on the source type: typing "
             "argument), connect subscribes the source with the subject.", "§4 C11",
             "share()/RefCount and the subject itself are not yet under contract in this check."),
